@@ -66,15 +66,26 @@ struct Object {
 }
 impl Engine for Object {
     fn push(&mut self, m: &[u8], ad: &[u8], tag: u8) -> Result<Vec<u8>, ()> {
-        let t = Tag::from_bits(tag).ok_or(())?;
+        let t = Tag::from_bits_retain(tag);   // any tag byte can be pushed through the public bitflags constructor
         let mv = m.to_vec();
         let adv = ad.to_vec();
-        self.s.push_to_vec(&mv, if ad.is_empty() { None } else { Some(&adv) }, t).map_err(|_| ())
+        // both spellings of the object API: the `_to_vec` helper and the generic method (chosen by the message length)
+        if m.len() % 2 == 0 {
+            self.s.push_to_vec(&mv, if ad.is_empty() { None } else { Some(&adv) }, t).map_err(|_| ())
+        } else {
+            let r: Result<Vec<u8>, _> = self.s.push(&mv, if ad.is_empty() { None } else { Some(&adv) }, t);
+            r.map_err(|_| ())
+        }
     }
     fn pull(&mut self, c: &[u8], ad: &[u8]) -> String {
         let cv = c.to_vec();
         let adv = ad.to_vec();
-        match self.t.pull_to_vec(&cv, if ad.is_empty() { None } else { Some(&adv) }) {
+        let r: Result<(Vec<u8>, Tag), _> = if c.len() % 2 == 0 {
+            self.t.pull_to_vec(&cv, if ad.is_empty() { None } else { Some(&adv) })
+        } else {
+            self.t.pull(&cv, if ad.is_empty() { None } else { Some(&adv) })
+        };
+        match r {
             Ok((m, tag)) => format!("ok:{}:{:02x}", hex(&m), tag.bits()),
             Err(_) => "err".into(),
         }
